@@ -3,100 +3,136 @@
 Decided statically: the loop-object accounting (balance of the counters the
 exit test reads, on all paths incl. failure paths), who writes them, and the
 placement of the exit test.  Not decided: progress per wake-up.
-"""
-from ..core import (names_of, same_value, AnalysisBroken, Inliner, canon, strip, evloc, lvalue_steps, lvalue_root,
-                    last_member, norm_cond, walk, relpath)
-from ..analyses import (delta_analysis, is_fail, is_success, is_call, loops, innermost_loop,
-                        edge_dominates, path_to, describe)
-from ..core import must_pass as core_must_pass
 
-COUNTERS = [('iv_state', 'numobjs'), ('iv_state', 'numfds'), ('iv_state', 'event_count'),
+Anchors are the exported API (iv_main, iv_*_register/unregister, iv_init), the
+poll-method table slots, typed fields (iv_state.numobjs/quit/..., iv_task_.handler,
+iv_timer_.list_expired, ...) and call *roles* computed from the call graph (a call
+that may run user callbacks, may run task handlers, enters the kernel wait).  No
+static helper name, local variable name, loop shape or expression text is matched.
+"""
+from ..core import AnalysisBroken, Inliner, canon, strip, lvalue_steps, norm_cond, forward
+from ..analyses import is_fail, path_to, describe
+from .. import roles
+from . import h07
+from .h07 import counter_key, step_of, const_store
+
+NUMOBJS = ('iv_state', 'numobjs')
+QUIT = ('iv_state', 'quit')
+COUNTERS = [NUMOBJS, ('iv_state', 'numfds'), ('iv_state', 'event_count'),
             ('iv_wait_thr_info', 'wait_count')]
 
 # Object kinds whose registration changes the counters iv_main's exit test
-# reads.  reg/unreg are API entry points; `tokens` maps helper functions to a
-# symbolic +1/-1 so that a failure path that undoes a registration by calling
-# the kind's own unregister helper is balanced by construction.
+# reads.  reg/unreg are API entry points.  `composite` kinds are analysed in
+# terms of the registrations of their sub-objects: the analysis stops at the
+# register/unregister API of every *other* kind and counts a symbolic +1/-1
+# registration of that kind (whose own balance is an obligation of its own), so
+# that a failure path that undoes a registration through the same API calls is
+# balanced whatever the sub-kinds do internally.
 KINDS = [
     dict(kind='fd', reg=['iv_fd_register'], unreg=['iv_fd_unregister']),
     dict(kind='fd-try', reg=['iv_fd_register_try'], unreg=['iv_fd_unregister']),
     dict(kind='timer', reg=['iv_timer_register'], unreg=['iv_timer_unregister'],
          discr=[('iv_timer_', 'index')],
-         arms=[dict(atom=(('iv_timer_', 'index'), '==', 0), delta=0,
-                    reason='timer is in the expired batch: iv_run_timers already took it out of '
+         arms=[dict(key=('iv_timer_', 'index'), value=0, domain=(-1, 0, 1, 2, 3, 1000), delta=0,
+                    reason='timer is in the expired batch: the timer runner already took it out of '
                            'the heap through iv_timer_unregister, which counted it')]),
     dict(kind='task', reg=['iv_task_register'], unreg=['iv_task_unregister']),
     dict(kind='event', reg=['iv_event_register'], unreg=['iv_event_unregister']),
     dict(kind='event-raw', reg=['iv_event_raw_register'], unreg=['iv_event_raw_unregister']),
     dict(kind='signal', reg=['iv_signal_register'], unreg=['iv_signal_unregister']),
-    dict(kind='wait-core', reg=['__iv_wait_interest_register'], unreg=['__iv_wait_interest_unregister']),
+    # leaf view of a wait interest (everything inlined down to the counters) ...
+    dict(kind='wait-core', reg=['iv_wait_interest_register'], unreg=['iv_wait_interest_unregister']),
+    # ... and the composite view, which also covers the failing spawn
     dict(kind='wait', reg=['iv_wait_interest_register', 'iv_wait_interest_register_spawn'],
-         unreg=['iv_wait_interest_unregister'],
-         tokens={'__iv_wait_interest_register': 1, '__iv_wait_interest_unregister': -1}),
+         unreg=['iv_wait_interest_unregister'], composite=True),
     dict(kind='inotify', reg=['iv_inotify_register'], unreg=['iv_inotify_unregister'], optional=True),
 ]
+
+# one-shot kinds: the runner takes the object out of its registered state and then calls its handler
+ONE_SHOT = {
+    'task': dict(record='iv_task_', link='list'),
+    'timer': dict(record='iv_timer_', link='list_expired', heap=('iv_state', 'num_timers'), discr=[('iv_timer_', 'index')]),
+}
 
 
 def _fmt(d, names):
     return '{' + ', '.join('%s%+d' % (n, v) for n, v in zip(names, d) if v) + '}' if any(d) else '{0}'
 
 
-def analyse(ctx, prog, fq, tokens, discr=()):
+def _sub_tokens(K):
+    """{API function name: (token index, +1/-1)} and token names for a composite kind."""
+    tok, names = {}, []
+    for K2 in KINDS:
+        if K2 is K or K2.get('composite') or set(K2['reg'] + K2['unreg']) & set(K['reg'] + K['unreg']):
+            continue
+        i = len(names)
+        names.append('%s-registrations' % K2['kind'])
+        for n in K2['reg']:
+            tok.setdefault(n, (i, 1))
+        for n in K2['unreg']:
+            tok.setdefault(n, (i, -1))
+    return tok, names
+
+
+def analyse(ctx, prog, fq, K=None, discr=()):
+    """Inline the API function fq (poll-method slots expanded) and compute the net counter change of
+    every return.  -> (inlined graph, [(ret event|None, delta, return class, preds)], covered store
+    locations, counter names)"""
     f = prog.fn(fq)
-    tok = tokens or {}
-    stopset = set(tok)
-    inl = Inliner(prog, expand_methods=True, stop=lambda t: t.name in stopset)
+    tok, toknames = _sub_tokens(K) if K is not None and K.get('composite') else ({}, [])
+    inl = Inliner(prog, expand_methods=True, stop=lambda t: t.name in tok and not t.static)
     g = inl.inline(f)
-    counters = COUNTERS + ([('token', 'registration')] if tok else [])
+    counters = COUNTERS + [('token', n) for n in toknames]
 
     def call_delta(e):
-        if tok and e.get('callee') in tok:
-            return tuple([0] * len(COUNTERS) + [tok[e['callee']]])
-        return None
-    res = delta_analysis(g, counters, discr=discr, call_delta=call_delta)
-    # counter stores covered by this root
-    covered = set()
-    for e in g.events():
-        if e['ev'] == 'store':
-            k = counter_key(e)
-            if k in COUNTERS:
-                covered.add(e['loc'])
+        t = tok.get(e.get('callee')) if 'callee' in e else None
+        if t is None:
+            return None
+        d = [0] * len(counters)
+        d[len(COUNTERS) + t[0]] = t[1]
+        return tuple(d)
+    res = h07.delta(g, counters, discr=discr, call_delta=call_delta if tok else None)
+    covered = _counter_store_locs(g)
     rets = list(res.rets)
-    # void functions falling off the end
     if f.ret == 'void':
-        rets = [r for r in rets]
         for (d, envk, preds) in res.exit_states:
             rets.append((None, d, 'void', preds))
-    return g, rets, covered, counters
+    return g, rets, covered, [c[1] for c in counters]
 
 
-def counter_key(e):
-    steps = lvalue_steps(e['lhs'])
-    if steps and len(steps) == 1:
-        return steps[0]
-    if not steps:
-        r = lvalue_root(e['lhs'])
-        if r is not None and r.get('vk') in ('global', 'staticlocal'):
-            return ('global', r['name'])
-    return None
+def _counter_store_locs(g):
+    """{source location of a counter store: set of steps it makes in this (inlined) context}"""
+    out = {}
+    for e in g.events():
+        if e['ev'] == 'store' and counter_key(e) in COUNTERS:
+            out.setdefault(e['loc'], set()).add(step_of(e))
+    return out
+
+
+def _cover(covered, cov):
+    for loc, steps in cov.items():
+        covered.setdefault(loc, set()).update(steps)
 
 
 def run(ctx):
     prog = ctx.prog
-    ctx.rule('R-C07a', 'every store to a loop-accounting counter is a unit step (quit: constant) and lies in a '
-                       'function whose paths the balance rule covers', floor=14)
+    ctx.rule('R-C07a', 'every store to a loop-accounting counter is a unit step (quit: constant; zeroing only at thread '
+                       'init) and lies on a path the balance rules analyse', floor=14)
     ctx.rule('R-C07b.fail', 'a registration path that returns failure leaves every counter unchanged', floor=4)
     ctx.rule('R-C07b.sets', 'set of success-path counter deltas of register == negated set of unregister-path '
                             'deltas, per object kind; state-discriminated arms as tabled', floor=9)
-    ctx.rule('R-C07b.auto', 'auto-unregistration (task/timer runners) drops the count exactly once per object, '
-                            'before the handler', floor=2)
-    ctx.rule('R-C07c', 'iv_main: quit cleared on entry; each iteration runs tasks, then evaluates quit||!numobjs, '
-                       'before polling; no other loop exit', floor=5)
-    ctx.rule('R-C07d', 'failed iv_fd_register_try clears `registered` and calls the method unregister hook', floor=2)
+    ctx.rule('R-C07b.auto', 'auto-unregistration (task/timer runners): between taking an object and calling its handler the '
+                            'count drops exactly once, and whenever user code runs the count has changed by exactly the '
+                            'number of objects taken out of / put into their registered state', floor=2)
+    ctx.rule('R-C07c', 'iv_main: quit cleared before anything is dispatched and never erased; it enters the kernel wait only '
+                       'with quit == 0 and numobjs != 0 freshly established after the last dispatch, and after task '
+                       'handlers ran; it returns only with quit != 0 or numobjs == 0; once either is observed nothing more '
+                       'is dispatched', floor=5)
+    ctx.rule('R-C07d', 'failed iv_fd_register_try leaves `registered` cleared and has called the method unregister hook', floor=2)
 
     ctx.rule('R-C07e', 'no busy wake-ups from rounding: the millisecond conversion of the remaining time rounds up (shared with C04 R-C04g)', floor=6)
     ctx.section(lambda c: __import__('ivy.rules.c04', fromlist=['x']).rounding(c, 'R-C07e'))
-    covered = set()
+    covered = {}
     ctx.section(balance, covered)
     ctx.section(auto_unregister, covered)
     ctx.section(writers, covered)
@@ -104,27 +140,40 @@ def run(ctx):
     ctx.section(try_rollback)
 
 
+# --------------------------------------------------------------------------
+# R-C07b.fail / R-C07b.sets
+# --------------------------------------------------------------------------
+
+def _arm_class(preds, arm):
+    """'arm' when the tests the path took force key == value, 'other' when they exclude it,
+    'both' when they do not decide (the path must then satisfy both obligations)."""
+    cons = [(op, k) for (m, op, k) in preds if m == arm['key']]
+    allowed = h07.values_allowed(cons, arm['domain'])
+    if allowed and all(v == arm['value'] for v in allowed):
+        return 'arm'
+    if arm['value'] not in allowed:
+        return 'other'
+    return 'both'
+
+
 def balance(ctx, covered):
     prog = ctx.prog
-    names = [c[1] for c in COUNTERS]
     for K in KINDS:
         if K.get('optional') and not all(prog.has_fn(x) for x in K['reg'] + K['unreg']):
             continue
         discr = K.get('discr', ())
-        nm = names + (['registrations'] if K.get('tokens') else [])
         succ = set()
+        nm = None
         for fq in K['reg']:
-            g, rets, cov, counters = analyse(ctx, prog, fq, K.get('tokens'), discr)
-            covered |= cov
+            g, rets, cov, nm = analyse(ctx, prog, fq, K, discr)
+            _cover(covered, cov)
             fails = {}
             for (e, d, rc, preds) in rets:
                 if is_fail(rc):
                     key = '%s:failure-return %s' % (fq, canon(e['value']) if e is not None and 'value' in e else '')
                     fails.setdefault(key, []).append((e, d))
-                elif is_success(rc) or rc == '?':
-                    # unknown return values are treated as success *and* must not be failure-only
-                    succ.add(d)
                 else:
+                    # unknown return values count as success
                     succ.add(d)
             for key, lst in sorted(fails.items()):
                 badl = [(e, d) for (e, d) in lst if any(d)]
@@ -135,16 +184,17 @@ def balance(ctx, covered):
         unreg = set()
         arm_states = {}
         for fq in K['unreg']:
-            g, rets, cov, counters = analyse(ctx, prog, fq, K.get('tokens'), discr)
-            covered |= cov
+            g, rets, cov, nm = analyse(ctx, prog, fq, K, discr)
+            _cover(covered, cov)
             for (e, d, rc, preds) in rets:
-                placed = False
-                for arm in K.get('arms', []):
-                    a = arm['atom']
-                    if (a[0], a[1], a[2]) in preds:
-                        arm_states.setdefault(str(a), []).append((e, d, arm))
-                        placed = True
-                if not placed:
+                normal = True
+                for ai, arm in enumerate(K.get('arms', [])):
+                    cl = _arm_class(preds, arm)
+                    if cl in ('arm', 'both'):
+                        arm_states.setdefault(ai, []).append((e, d))
+                    if cl == 'arm':
+                        normal = False
+                if normal:
                     unreg.add(d)
         neg = {tuple(-x for x in d) for d in unreg}
         ok = (succ == neg) and bool(succ)
@@ -152,17 +202,19 @@ def balance(ctx, covered):
                detail='register success deltas %s ; unregister deltas %s'
                       % (sorted(_fmt(d, nm) for d in succ), sorted(_fmt(d, nm) for d in unreg)),
                fn=K['unreg'][0])
-        for arm in K.get('arms', []):
-            lst = arm_states.get(str(arm['atom']), [])
+        for ai, arm in enumerate(K.get('arms', [])):
+            lst = arm_states.get(ai, [])
             if not lst:
-                raise AnalysisBroken('kind %s: no unregister path takes the tabled arm %s' % (K['kind'], arm['atom']))
-            want = tuple([arm['delta']] * len(nm)) if arm['delta'] == 0 else arm['delta']
-            bad = [(e, d) for (e, d, _) in lst if d != want]
-            ctx.ob('R-C07b.sets', '%s:arm %s.%s %s %s' % (K['kind'], arm['atom'][0][0], arm['atom'][0][1], arm['atom'][1], arm['atom'][2]),
+                raise AnalysisBroken('kind %s: no unregister path is discriminated as %s.%s == %s'
+                                     % (K['kind'], arm['key'][0], arm['key'][1], arm['value']))
+            want = tuple([arm['delta']] * len(nm))
+            bad = [(e, d) for (e, d) in lst if d != want]
+            ctx.ob('R-C07b.sets', '%s:arm %s.%s == %s' % (K['kind'], arm['key'][0], arm['key'][1], arm['value']),
                    not bad, loc=prog.fn(K['unreg'][0]).loc,
-                   detail='deltas on this arm: %s (expected %s: %s)' % (sorted({_fmt(d, nm) for e, d, _ in lst}), _fmt(want, nm), arm['reason']),
+                   detail='deltas on this arm: %s (expected %s: %s)' % (sorted({_fmt(d, nm) for e, d in lst}), _fmt(want, nm), arm['reason']),
                    fn=K['unreg'][0])
-    # epoll kick receiver: slot pair event_rx_on / event_rx_off
+    # kick receiver of a poll method: slot pair event_rx_on / event_rx_off
+    names = [c[1] for c in COUNTERS]
     tables = prog.method_tables()
     for t, slots in sorted(tables.items()):
         on, off = slots.get('event_rx_on'), slots.get('event_rx_off')
@@ -173,8 +225,8 @@ def balance(ctx, covered):
                    detail='event_rx_on/off must be defined together')
             continue
         fon, foff = prog.resolve(*on), prog.resolve(*off)
-        g, rets, cov, _ = analyse(ctx, prog, fon.q, None)
-        covered |= cov
+        g, rets, cov, _ = analyse(ctx, prog, fon.q)
+        _cover(covered, cov)
         succ, failbad = set(), []
         for (e, d, rc, preds) in rets:
             if is_fail(rc):
@@ -184,224 +236,345 @@ def balance(ctx, covered):
                 succ.add(d)
         ctx.ob('R-C07b.fail', '%s:failure-return' % fon.name, not failbad, loc=fon.loc,
                detail='kick receiver enable, table %s' % t, fn=fon.q)
-        g2, rets2, cov2, _ = analyse(ctx, prog, foff.q, None)
-        covered |= cov2
+        g2, rets2, cov2, _ = analyse(ctx, prog, foff.q)
+        _cover(covered, cov2)
         un = {d for (e, d, rc, preds) in rets2}
         ctx.ob('R-C07b.sets', 'kick:%s' % t, succ == {tuple(-x for x in d) for d in un} and bool(succ), loc=foff.loc,
                detail='rx_on success deltas %s ; rx_off deltas %s' % (sorted(_fmt(d, names) for d in succ), sorted(_fmt(d, names) for d in un)),
                fn=foff.q)
 
 
+# --------------------------------------------------------------------------
+# R-C07b.auto
+# --------------------------------------------------------------------------
+
+def _user_code(g, e):
+    sk = h07.site_kind(g, e)
+    return sk is not None and sk[0] != 'method'
+
 
 def auto_unregister(ctx, covered):
+    """Runners of one-shot objects (tasks, timers), found by role: the entry points from which an indirect
+    call through the kind's handler field is reached.  In each, with all helpers inlined:
+      per-object  : between the definition of the object variable (through copies) and the handler call /
+                    the move into the expired batch, numobjs drops by exactly one;
+      tracks      : at every point at which user code runs, and at return, numobjs has changed since the last
+                    such point by exactly the number of objects linked minus unlinked (tasks: the
+                    registration link; timers: the heap size)."""
     prog = ctx.prog
-    names = [c[1] for c in COUNTERS]
-    # task runner: between the unlink of a task and its handler, numobjs drops by exactly one
-    f = prog.fn('iv_run_tasks')
-    lps = loops(f)
-    sites = [e for e in f.events() if e['ev'] == 'call' and last_member(e.get('fnexpr')) == ('iv_task_', 'handler')]
-    if not sites:
-        raise AnalysisBroken('iv_run_tasks: task handler call site not found')
-    for cs in sites:
-        h = innermost_loop(f, cs['_b'], lps)
-        if h is None:
-            raise AnalysisBroken('iv_run_tasks: handler call is not in a loop')
-        cut = {(b, si) for b in lps[h] for si, s in enumerate(f.blocks[b].succ) if s == h}
-        res = delta_analysis(f, COUNTERS, start_block=h, cut=frozenset(cut), stop=lambda e: e is cs)
-        st = res.at.get(id(cs))
-        ds = {d for (d, envk, p) in st[1]} if st else set()
+    found = {k: False for k in ONE_SHOT}
+    owners = {}
+    for f in sorted(prog.all_funcs(), key=lambda f: f.q):
         for e in f.events():
-            if e['ev'] == 'store' and counter_key(e) in COUNTERS:
-                covered.add(e['loc'])
-        ctx.ob('R-C07b.auto', 'iv_run_tasks:per-task', ds == {(-1, 0, 0, 0)}, loc=cs['loc'],
-               detail='net change from loop head to the handler call: %s' % sorted(_fmt(d, names) for d in ds), fn=f.q)
-    # timer runner: every timer moved to the expired batch went through iv_timer_unregister (heap arm)
-    f = prog.fn('iv_run_timers')
-    adds = [e for e in f.events() if is_call(e, ('iv_list_add_tail', 'iv_list_add'))
-            and last_member(strip(e['args'][0]).get('e') if strip(e['args'][0]).get('k') == 'addr' else None) == ('iv_timer_', 'list_expired')]
-    if not adds:
-        raise AnalysisBroken('iv_run_timers: expired-batch add not found')
-    lps = loops(f)
-    for a in adds:
-        h = innermost_loop(f, a['_b'], lps)
-        if h is None:
-            raise AnalysisBroken('iv_run_timers: expired-batch add is not in a loop')
-        obj = canon(strip(strip(a['args'][0])['e'])['base'])
-        def is_unreg(e, obj=obj):
-            return is_call(e, 'iv_timer_unregister') and obj in names_of(e['args'][0])
-        mp = _must_since_block(f, h, lps[h], is_unreg)
-        ctx.ob('R-C07b.auto', 'iv_run_timers:expire', bool(mp.get((a['_b'], a['_i']))), loc=a['loc'],
-               detail='iv_timer_unregister(%s) precedes the move to the expired batch in the same iteration' % obj, fn=f.q)
+            if e['ev'] == 'call' and 'fnexpr' in e:
+                sk = h07.site_kind(f, e)
+                if sk and sk[0] == 'callback' and sk[1] in ONE_SHOT:
+                    owners.setdefault(f.q, (f, set()))[1].add(sk[1])
+    ctxs = {}
+    for q, (f, kinds) in sorted(owners.items()):
+        for r in h07.nearest_roots(prog, f):
+            ctxs.setdefault(r.q, (r, set()))[1].update(kinds)
+    graphs = {}
+    for q, (r, kinds) in sorted(ctxs.items()):
+        graphs[q] = Inliner(prog, expand_methods=False).inline(r)
+        _cover(covered, _counter_store_locs(graphs[q]))
+    for q, (r, kinds) in sorted(ctxs.items()):
+        g = graphs[q]
+        user = {id(e) for e in g.events() if e['ev'] == 'call' and 'fnexpr' in e and _user_code(g, e)}
+        for kind in sorted(kinds):
+            spec = ONE_SHOT[kind]
+            sites = [e for e in g.events() if e['ev'] == 'call' and 'fnexpr' in e
+                     and h07.site_kind(g, e) == ('callback', kind)]
+            if not sites:
+                continue
+            found[kind] = True
+            aliases = h07.link_aliases(g, spec['record'], spec['link'])
+            # ---- per object ------------------------------------------------------
+            if kind == 'task':
+                targets = sites
+                what = 'the handler call'
+            else:
+                targets = [e for e in g.events() if h07.link_op(e, spec['record'], spec['link'], aliases) == 1]
+                what = 'the move into the expired batch'
+                if not targets:
+                    raise AnalysisBroken('%s: no add to %s.%s found' % (r.name, spec['record'], spec['link']))
+            byloc = {}
+            for t in targets:
+                if kind == 'task':
+                    cf = h07.cb_field(g, t)
+                    objx = cf[2] if cf else None
+                else:
+                    objx = h07.link_site(t, spec['record'], spec['link'], aliases)[1]
+                root = h07.obj_root_name(objx) if objx is not None else None
+                if root is None:
+                    raise AnalysisBroken('%s: object of %s is not held in a local' % (r.name, describe(t)))
+                fam = h07.copy_family(g, root)
+                res = h07.delta(g, [NUMOBJS], discr=spec.get('discr', ()), reset=h07.origin_defs(g, fam), stop=lambda e, t=t: e is t)
+                S = res.at.get(id(t))
+                ds = {st[0] for st in S[1]} if S else set()
+                byloc.setdefault(t['loc'], (t, set()))[1].update(ds)
+            for loc, (t, ds) in sorted(byloc.items()):
+                ctx.ob('R-C07b.auto', '%s:%s:per-object' % (r.name, kind), ds == {(-1,)}, loc=loc,
+                       detail='net change of numobjs between the definition of the object and %s: %s'
+                              % (what, sorted(_fmt(d, ['numobjs']) for d in ds)), fn=r.q)
+            # ---- count tracks registered objects ----------------------------------
+            if kind == 'task':
+                alias, tokname = None, 'objects linked into %s.%s' % (spec['record'], spec['link'])
+
+                def call_delta(e, spec=spec, aliases=aliases):
+                    n = h07.link_op(e, spec['record'], spec['link'], aliases)
+                    return (-n,) if n else None
+            else:
+                alias, tokname, call_delta = {spec['heap']: (0, -1)}, '%s.%s' % spec['heap'], None
+            res = h07.delta(g, [NUMOBJS], discr=spec.get('discr', ()), reset=lambda e: id(e) in user,
+                            stop=lambda e: id(e) in user, call_delta=call_delta, alias=alias, saturate=True)
+            bad = []
+            for (e, S) in res.at.values():
+                bad += [(e, st[0]) for st in S if any(st[0])]
+            bad += [(e, d) for (e, d, rc, preds) in res.rets if any(d)]
+            bad += [(None, d) for (d, envk, preds) in res.exit_states if any(d)]
+            e0 = next((e for e, d in bad if e is not None), None)
+            ctx.ob('R-C07b.auto', '%s:%s:count-tracks-registered' % (r.name, kind), not bad,
+                   loc=e0['loc'] if e0 else sites[0]['loc'],
+                   detail='numobjs minus %s is unchanged between any two points at which user code runs (and at return)%s'
+                          % (tokname, '; off by %s before %s' % (sorted({d[0] for e, d in bad}), describe(e0) if e0 else 'return') if bad else ''),
+                   fn=r.q)
+    for kind, ok in sorted(found.items()):
+        if not ok:
+            raise AnalysisBroken('no call through the %s handler field found in any entry point' % kind)
 
 
+# --------------------------------------------------------------------------
+# R-C07a
+# --------------------------------------------------------------------------
 
 def writers(ctx, covered):
     prog = ctx.prog
-    for c in COUNTERS[:3] + [('iv_state', 'quit')]:
+    init = prog.fn('iv_init')
+    for c in COUNTERS[:3] + [QUIT]:
         ws = prog.writers_of(*c)
         for (f, e) in ws:
             if len(lvalue_steps(e['lhs'])) != 1:
                 continue
             op = e['op']
-            if c[1] == 'quit':
-                ok = op == '=' and strip(e['rhs']).get('k') == 'int' and strip(e['rhs'])['v'] in (0, 1)
+            k = const_store(e)
+            if c == QUIT:
+                ok = k in (0, 1)
                 det = 'constant store'
-            elif op == '=' and strip(e['rhs']).get('k') == 'int' and strip(e['rhs'])['v'] == 0 and c[1] == 'event_count':
-                ok = f.name == 'iv_event_init' or _only_called_from_init(prog, f)
-                det = 'zeroing at thread init'
+            elif k == 0:
+                ok = f.q == init.q or h07.only_through(prog, f, init)
+                det = 'zeroing, reachable only from iv_init (thread init)'
             else:
-                ok = op in ('++', '--')
-                det = 'unit step'
-                if ok and e['loc'] not in covered:
+                raw, inst = step_of(e), covered.get(e['loc'])
+                if inst is None:
                     ok = False
                     det = 'store is not on any path analysed by the balance rule (unbalanced writer)'
+                else:
+                    # the step may be a constant argument of a helper: every analysed context decides
+                    ok = all(n in (1, -1) for n in inst) and raw in (1, -1, None)
+                    det = 'unit step' + ('' if raw is not None else ' in every analysed calling context')
             ctx.ob('R-C07a', '%s:%s.%s %s' % (f.name, c[0], c[1], op), ok, loc=e['loc'], detail=det, fn=f.q)
 
 
+# --------------------------------------------------------------------------
+# R-C07d
+# --------------------------------------------------------------------------
 
 def try_rollback(ctx):
     prog = ctx.prog
     f = prog.fn('iv_fd_register_try')
     g = Inliner(prog, expand_methods=False).inline(f)
-    res = delta_analysis(g, COUNTERS)
+    res = h07.delta(g, COUNTERS)
     failrets = [(e, d) for (e, d, rc, p) in res.rets if is_fail(rc)]
     if not failrets:
         raise AnalysisBroken('iv_fd_register_try has no failure return')
-    for key, pred, what in (
-            ('registered=0', lambda e: e['ev'] == 'store' and lvalue_steps(e['lhs'])[:1] == [('iv_fd_', 'registered')] and canon(e.get('rhs')) == '0', 'fd->registered = 0'),
-            ('unregister_fd', lambda e: e['ev'] == 'call' and last_member(e.get('fnexpr')) == ('iv_fd_poll_method', 'unregister_fd'), 'method->unregister_fd (if set)')):
-        mp = core_must_pass(g, pred)
-        for (e, d) in failrets:
-            # the hook call is conditional on the slot being non-NULL: accept either the call or the NULL edge
-            ok = mp.get((e['_b'], e['_i']), False)
-            if not ok and key == 'unregister_fd':
-                ok = _call_or_null_slot(g, e, 'unregister_fd')
-            ctx.ob('R-C07d', 'iv_fd_register_try:%s' % key, ok, loc=e['loc'],
-                   detail='every failing path executes %s before returning' % what, fn=f.q)
+    # value of iv_fd_.registered at each point, as last stored on every path ('?' when paths disagree / unknown)
+    REG = ('iv_fd_', 'registered')
 
-
-def _only_called_from_init(prog, f):
-    cs = prog.callers_of(f.name)
-    return bool(cs) and all(c.name in ('iv_init', 'iv_event_init') for c, _ in cs)
-
-
-def _must_since_block(f, h, body, pred):
-    """must-analysis restarted at loop header h (per iteration)."""
-    from ..core import forward
     def tr(e, s):
-        return True if pred(e) else s
-    def edge(blk, si, s):
-        return False if blk.succ[si] == h else s
-    inst, ev_in = forward(f, False, tr, lambda a, b: a and b, edge=edge)
-    return ev_in
+        if e['ev'] == 'store' and lvalue_steps(e['lhs'])[:1] == [REG]:
+            k = const_store(e)
+            return '?' if k is None else str(k)
+        return s
+    _, val = forward(g, 'entry', tr, lambda a, b: a if a == b else '?')
+    byloc = {}
+    for (e, d) in failrets:
+        v = val.get((e['_b'], e['_i']), '?')
+        hook = _call_or_null_slot(g, e, 'unregister_fd')
+        cur = byloc.setdefault(e['loc'], [e, True, True])
+        cur[1] = cur[1] and v == '0'
+        cur[2] = cur[2] and hook
+    for loc, (e, ok1, ok2) in sorted(byloc.items()):
+        ctx.ob('R-C07d', 'iv_fd_register_try:registered=0', ok1, loc=loc,
+               detail='on every failing path the last store to fd->registered before the return is 0', fn=f.q)
+        ctx.ob('R-C07d', 'iv_fd_register_try:unregister_fd', ok2, loc=loc,
+               detail='every failing path executes method->unregister_fd (if set) before returning', fn=f.q)
 
 
 def _call_or_null_slot(g, ret_ev, slot):
     """Every path to ret_ev either calls method-><slot> or crossed the NULL edge of a test of it."""
-    from ..core import forward
     def tr(e, s):
-        if e['ev'] == 'call' and last_member(e.get('fnexpr')) == ('iv_fd_poll_method', slot):
+        if e['ev'] == 'call' and 'fnexpr' in e and h07.site_kind(g, e) == ('method', slot):
             return True
         return s
+
     def edge(blk, si, s):
         if blk.term and blk.term.get('cond') is not None and len(blk.succ) == 2:
             for (op, lc, rc, l, r) in norm_cond(blk.term['cond'], si == 0):
-                if last_member(l) == ('iv_fd_poll_method', slot) and op == '==' and rc == '0':
+                if h07.value_member(g, l) == ('iv_fd_poll_method', slot) and op == '==' and rc == '0':
                     return True
         return s
     _, ev_in = forward(g, False, tr, lambda a, b: a and b, edge=edge)
     return bool(ev_in.get((ret_ev['_b'], ret_ev['_i'])))
 
 
+# --------------------------------------------------------------------------
+# R-C07c
+# --------------------------------------------------------------------------
+
+MAIN_FACTS = h07.Facts({QUIT: (0, 1), NUMOBJS: (0, 1, 2, 5)})
+
+
 def check_main(ctx, prog):
+    """Abstract execution of iv_main (file-local helpers inlined) over the facts quit ∈ {0, ≠0, ?} and
+    numobjs ∈ {0, ≠0, ?}, which are forgotten at every call that may run user callbacks or write them
+    (from the call graph), with disjunctive states so that any spelling of the exit test
+    (`a || b`, two breaks, a cached flag, a helper predicate, the loop condition) yields the same facts."""
     f = prog.fn('iv_main')
-    lps = loops(f)
-    if not lps:
-        raise AnalysisBroken('iv_main has no loop')
-    polls = [e for e in f.events() if is_call(e, 'iv_fd_poll_and_run')]
-    if len(polls) != 1:
-        raise AnalysisBroken('iv_main: expected one poll call, found %d' % len(polls))
-    poll = polls[0]
-    h = innermost_loop(f, poll['_b'], lps)
-    if h is None:
-        raise AnalysisBroken('iv_main: poll call not in a loop')
-    body = lps[h]
-    # (1) quit cleared on entry, before the loop
-    mp = core_must_pass(f, lambda e: e['ev'] == 'store' and lvalue_steps(e['lhs'])[:1] == [('iv_state', 'quit')]
-                        and canon(e.get('rhs')) == '0')
-    hb = f.blocks[h]
-    ctx.ob('R-C07c', 'iv_main:quit-cleared', bool(mp.get((h, 0))) or _entry_state(f, mp, h), loc=f.loc,
-           detail='store quit = 0 on every path from entry to the loop head', fn=f.q)
-    # (2) loop exits: only through tests of quit / numobjs
-    exits = []
-    for b in body:
-        blk = f.blocks[b]
-        for si, s in enumerate(blk.succ):
-            if s is not None and s not in body:
-                exits.append((b, si))
-    if not exits:
-        raise AnalysisBroken('iv_main: loop has no exit')
-    quit_edges, num_edges = [], []
-    for (b, si) in exits:
-        blk = f.blocks[b]
-        atoms = norm_cond(blk.term['cond'], si == 0) if blk.term and blk.term.get('cond') is not None else []
-        kinds = set()
-        for (op, lc, rc, l, r) in atoms:
-            lm = last_member(l)
-            if lm == ('iv_state', 'quit') and op == '!=' and rc == '0':
-                kinds.add('quit')
-            if lm == ('iv_state', 'numobjs') and op == '==' and rc == '0':
-                kinds.add('numobjs')
-            if lm == ('iv_state', 'numobjs') and op == '<=' and rc == '0':
-                kinds.add('numobjs')
-        ctx.ob('R-C07c', 'iv_main:exit-edge(%s)' % (','.join(sorted(kinds)) or canon(blk.term.get('cond') if blk.term else None)),
-               bool(kinds), loc=(blk.term or {}).get('loc', f.loc),
-               detail='loop is left only on quit != 0 or numobjs == 0', fn=f.q)
-        if 'quit' in kinds:
-            quit_edges.append((b, si))
-        if 'numobjs' in kinds:
-            num_edges.append((b, si))
-    ctx.ob('R-C07c', 'iv_main:exit-on-quit', bool(quit_edges), loc=f.loc, detail='an exit edge tests quit', fn=f.q)
-    ctx.ob('R-C07c', 'iv_main:exit-on-empty', bool(num_edges), loc=f.loc, detail='an exit edge tests numobjs == 0', fn=f.q)
-    # (3) within an iteration: tasks ran before each exit test; both tests passed before the poll
-    def is_tasks(e):
-        return is_call(e, 'iv_run_tasks')
-    ev_in = _must_since_block(f, h, body, is_tasks)
-    for (b, si) in exits:
-        n = len(f.blocks[b].events)
-        ctx.ob('R-C07c', 'iv_main:tasks-before-exit-test', bool(ev_in.get((b, n))), loc=(f.blocks[b].term or {}).get('loc', f.loc),
-               detail='iv_run_tasks runs in every iteration before the exit test is evaluated', fn=f.q)
-    # timers: iv_run_timers runs before the exit test whenever the previous poll asked for it
-    # (checked by C04); here: the poll is reached only after both continue-edges
-    for kind, edges in (('quit', quit_edges), ('numobjs', num_edges)):
-        ok = False
-        for (b, si) in edges:
-            other = 1 - si
-            if edge_dominates_in_loop(f, h, body, b, other, poll['_b']):
-                ok = True
-        ctx.ob('R-C07c', 'iv_main:poll-after-%s-test' % kind, ok, loc=poll['loc'],
-               detail='the poll call is reached only through the continue edge of the %s test of the same iteration' % kind, fn=f.q)
-    # no store to quit/numobjs between test and poll by iv_main itself is implied by who-may-write
+    eff = h07.Effects(prog, watch=[QUIT, NUMOBJS])
+    g = Inliner(prog, stop=lambda t: not (t.static or t.file == f.file)).inline(f)
+    facts = MAIN_FACTS
 
+    cls = {}
+    for e in g.events():
+        if e['ev'] == 'call':
+            tags = eff.of_call(h07.origin(prog, g, e), e)
+            c = set()
+            if any(t[0] == 'cb' for t in tags) or ('w',) + QUIT in tags or ('w',) + NUMOBJS in tags:
+                c.add('dispatch')
+            if ('block',) in tags:
+                c.add('block')
+                c.add('dispatch')
+            if ('cb', 'task') in tags:
+                c.add('tasks')
+            if c:
+                cls[id(e)] = c
+    blocks = [e for e in g.events() if 'block' in cls.get(id(e), ())]
+    if not blocks:
+        raise AnalysisBroken('iv_main: no call that enters the poll method\'s kernel wait')
+    if not any('tasks' in c for c in cls.values()):
+        raise AnalysisBroken('iv_main: no call that runs task handlers')
 
-def _entry_state(f, mp, h):
-    # loop head reached from entry: check the predecessor outside the loop
-    return False
+    # state: frozenset of (facts, cleared, tasks, dispatched); facts = sorted tuple of (key, 'z'|'nz')
+    def mk(env, cleared, tasks, disp):
+        return (tuple(sorted(env.items())), cleared, tasks, disp)
 
+    def tr(e, S):
+        ev = e['ev']
+        out = set()
+        for (fk, cleared, tasks, disp) in S:
+            env = dict(fk)
+            if ev == 'store':
+                key = counter_key(e) if len(lvalue_steps(e['lhs'])) == 1 else None
+                l = strip(e['lhs'])
+                if key in (QUIT, NUMOBJS):
+                    for k_ in [k_ for k_ in env if k_[0] == 'alias']:
+                        env.pop(k_)
+                if key == QUIT:
+                    k = const_store(e)
+                    env.pop(QUIT, None)
+                    if k is not None:
+                        env[QUIT] = 'nz' if k else 'z'
+                    if k == 0:
+                        cleared = True
+                elif key == NUMOBJS:
+                    env.pop(NUMOBJS, None)
+                elif isinstance(l, dict) and l.get('k') == 'var' and l.get('vk') in ('local', 'param'):
+                    plain = e.get('op') == '=' and 'rhs' in e
+                    v = h07.truth(facts, env, e['rhs']) if plain else '?'
+                    av = h07.alias_value(facts, e['rhs']) if plain else None
+                    env.pop(('var', l['name']), None)
+                    for k_ in [k_ for k_ in env if k_[0] == 'alias' and (k_[1] == l['name'] or h07.alias_mentions(env[k_], l['name']))]:
+                        env.pop(k_)
+                    if v != '?':
+                        env[('var', l['name'])] = v
+                    elif av is not None and not h07.alias_mentions(av, l['name']):
+                        # the local caches facts not decided yet (`n = st->numobjs;`, `stop = st->quit | !n;`): a later
+                        # test of the local is a test of that expression, as long as no fact is forgotten
+                        env[('alias', l['name'])] = av
+            elif ev == 'decl':
+                env.pop(('var', e['name']), None)
+                env.pop(('alias', e['name']), None)
+            elif ev == 'call':
+                c = cls.get(id(e), ())
+                if 'dispatch' in c:
+                    for k_ in [k_ for k_ in env if k_ in (QUIT, NUMOBJS) or k_[0] == 'alias']:
+                        env.pop(k_)
+                    disp = True
+                if 'tasks' in c:
+                    tasks = True
+                if 'block' in c:
+                    tasks = False
+                for a in e.get('args', []):
+                    a = strip(a)
+                    if isinstance(a, dict) and a.get('k') == 'addr' and strip(a['e']).get('k') == 'var':
+                        env.pop(('var', strip(a['e'])['name']), None)
+                        env.pop(('alias', strip(a['e'])['name']), None)
+            out.add(mk(env, cleared, tasks, disp))
+        return frozenset(out)
 
-def edge_dominates_in_loop(f, h, body, b, si, target):
-    """Within one iteration (start at header, back edges cut), every path to
-    target takes edge (b, si)."""
-    seen = set()
-    st = [h]
-    while st:
-        x = st.pop()
-        if x in seen:
-            continue
-        seen.add(x)
-        for i, s in enumerate(f.blocks[x].succ):
-            if s is None or s == h or (x == b and i == si):
-                continue
-            if s in body:
-                st.append(s)
-    return target not in seen
+    def edge(blk, si, S):
+        if not blk.term or len(blk.succ) != 2 or blk.term.get('cond') is None \
+                or blk.term.get('cls') in ('SwitchStmt', 'MethodDispatch'):
+            return S
+        out = set()
+        for (fk, cleared, tasks, disp) in S:
+            for env in h07.assume(facts, dict(fk), blk.term['cond'], si == 0):
+                out.add(mk(env, cleared, tasks, disp))
+        return frozenset(out) if out else None
+
+    init = frozenset([mk({}, False, False, False)])
+    _, ev_in = forward(g, init, tr, lambda a, b: a | b, edge=edge)
+
+    def states(e):
+        return ev_in.get((e['_b'], e['_i']), frozenset())
+
+    def val(st, key):
+        return dict(st[0]).get(key, '?')
+
+    # (1) quit is cleared before anything is dispatched, and never written after a dispatch
+    disp_sites = [e for e in g.events() if 'dispatch' in cls.get(id(e), ())]
+    for loc, evs in sorted(roles.by_loc(disp_sites).items()):
+        ok = all(st[1] for e in evs for st in states(e))
+        ctx.ob('R-C07c', 'iv_main:quit-cleared', ok, loc=loc,
+               detail='iv_main stored quit = 0 on every path from entry to %s (a call that may run callbacks)' % describe(evs[0]), fn=f.q)
+    qstores = [e for e in g.events() if e['ev'] == 'store' and counter_key(e) == QUIT and len(lvalue_steps(e['lhs'])) == 1]
+    late = [e for e in qstores if any(st[3] for st in states(e))]
+    ctx.ob('R-C07c', 'iv_main:quit-not-erased', not late, loc=(late or qstores or [{'loc': f.loc}])[0]['loc'],
+           detail='no store to quit is reachable after a call that may run callbacks (a quit request is never erased)', fn=f.q)
+    # (2) the kernel wait is entered only with quit == 0 and numobjs != 0, established after the last dispatch,
+    #     and after task handlers ran since the previous wait
+    for loc, evs in sorted(roles.by_loc(blocks).items()):
+        sts = [st for e in evs for st in states(e)]
+        ctx.ob('R-C07c', 'iv_main:poll-after-quit-test', bool(sts) and all(val(st, QUIT) == 'z' for st in sts), loc=loc,
+               detail='the kernel wait is reached only with quit == 0 established after the last call that may run callbacks', fn=f.q)
+        ctx.ob('R-C07c', 'iv_main:poll-after-numobjs-test', bool(sts) and all(val(st, NUMOBJS) == 'nz' for st in sts), loc=loc,
+               detail='the kernel wait is reached only with numobjs != 0 established after the last call that may run callbacks', fn=f.q)
+        ctx.ob('R-C07c', 'iv_main:tasks-before-poll', bool(sts) and all(st[2] for st in sts), loc=loc,
+               detail='on every path from entry / the previous kernel wait to this one a call that runs task handlers is executed', fn=f.q)
+    # (3) iv_main returns only with quit != 0 (set since it cleared it) or numobjs == 0
+    pts = [(b, i) for b, blk in g.blocks.items() for i, e in enumerate(blk.events) if e['ev'] == 'ret' and not e.get('chain')]
+    pts.append((g.exit, 0))
+    rs = [st for p in pts for st in ev_in.get(p, frozenset())]
+    if not rs:
+        raise AnalysisBroken('iv_main: no return is reachable')
+    bad = [st for st in rs if not ((val(st, QUIT) == 'nz' and st[1]) or val(st, NUMOBJS) == 'z')]
+    ctx.ob('R-C07c', 'iv_main:return-only-on-quit-or-empty', not bad, loc=f.loc,
+           detail='every path to a return established quit != 0 or numobjs == 0 after the last call that may run callbacks'
+                  + (' (a returning path knows only: %s)' % ', '.join('%s.%s %s' % (k[0], k[1], v) for k, v in bad[0][0] if k[0] != 'alias') if bad else ''), fn=f.q)
+    # (4) once quit / emptiness has been observed nothing more is dispatched (so (3) is reached)
+    for loc, evs in sorted(roles.by_loc(disp_sites).items()):
+        sts = [st for e in evs for st in states(e)]
+        ok = not any(val(st, QUIT) == 'nz' or val(st, NUMOBJS) == 'z' for st in sts)
+        ctx.ob('R-C07c', 'iv_main:no-dispatch-after-exit-condition', ok, loc=loc,
+               detail='%s is never reached on a path that observed quit != 0 or numobjs == 0 since the last dispatch' % describe(evs[0]), fn=f.q)
